@@ -49,6 +49,16 @@ Check C05_response : forall (m : msg) (v11 : bool) (st reason body : bytes),
   analyse_response (render m ++ body) = Ok (expect_response m v11 st).
 Print Assumptions C05_response.
 
+(* 3b. `known` has no class left (known m = false for every m): the theorem without that hypothesis *)
+Theorem C05_request_all : forall (m : msg) (me t : bytes) (v11 : bool) (body : bytes),
+  wf m = true -> m_start m = SReq me t v11 ->
+  analyse_request (render m ++ body) = Ok (expect_request m me t v11).
+Proof. exact request_faithful_all. Qed.
+Check C05_request_all : forall (m : msg) (me t : bytes) (v11 : bool) (body : bytes),
+  wf m = true -> m_start m = SReq me t v11 ->
+  analyse_request (render m ++ body) = Ok (expect_request m me t v11).
+Print Assumptions C05_request_all.
+
 (* 4. components *)
 Theorem C05_headers_roundtrip : forall m : msg, wf m = true ->
   parse_headers (map render_line (m_headers m)) = Some (map report_header (indexed (m_headers m) O)).
@@ -58,11 +68,11 @@ Check C05_headers_roundtrip : forall m : msg, wf m = true ->
 Print Assumptions C05_headers_roundtrip.
 
 Theorem C05_lang_is_argmax_first : forall items : list lang_item,
-  items_ok items = true -> known_upper_q items = false ->
+  items_ok items = true ->
   get_highest_quality_language (render_value (VLang items)) = spec_lang items.
 Proof. exact lang_is_argmax_first. Qed.
 Check C05_lang_is_argmax_first : forall items : list lang_item,
-  items_ok items = true -> known_upper_q items = false ->
+  items_ok items = true ->
   get_highest_quality_language (render_value (VLang items)) = spec_lang items.
 Print Assumptions C05_lang_is_argmax_first.
 
@@ -71,15 +81,19 @@ Proof. exact cookie_split. Qed.
 Check C05_cookie_split : forall v : bytes, plain_ws v = true -> parse_cookies v = number_cookies (cookie_pairs v) O.
 Print Assumptions C05_cookie_split.
 
-(* 5. every known class contains a well-formed message that the unchanged code misreports
+(* 5. no known class is left: the former witnesses agree with the specification
       (the classes gate-methods, tag-case and weight-OWS were repaired in /repo by 4eff695, 050bdf8, b696a82
        and are inside C05_request / C05_lang_is_argmax_first now) *)
-Theorem C05_Known_cookies_refuted : exists m, known_cookies m = true /\ refuted m.
-Proof. exact Known_cookies_refuted. Qed.
-Print Assumptions C05_Known_cookies_refuted.
-Theorem C05_Known_upper_q_refuted : exists m, known_lang m = true /\ refuted m.
-Proof. exact Known_upper_q_refuted. Qed.
-Print Assumptions C05_Known_upper_q_refuted.
+Theorem C05_cookies_former_witness_agrees :
+  wf w_cookies = true /\ known w_cookies = false /\
+  analyse_request (render w_cookies) = Ok (expect_request w_cookies (bs "GET") (bs "/") true).
+Proof. exact cookies_former_witness_agrees. Qed.
+Print Assumptions C05_cookies_former_witness_agrees.
+Theorem C05_upper_q_former_witness_agrees :
+  wf w_upper_q = true /\ known w_upper_q = false /\
+  analyse_request (render w_upper_q) = Ok (expect_request w_upper_q (bs "GET") (bs "/") true).
+Proof. exact upper_q_former_witness_agrees. Qed.
+Print Assumptions C05_upper_q_former_witness_agrees.
 Example C05_repaired_classes_inside :
   forallb (fun m => wf m && negb (known m)) [w_method; w_weight_ows; w_tag_case] = true.
 Proof. exact repaired_classes_ok. Qed.
